@@ -15,6 +15,7 @@ import (
 
 type c06Stats struct {
 	children, killed, drvPoints, vfsPoints, torn, secondCrash, inCommit, realRestarts int
+	faults int64
 }
 
 // c06Recovery checks the store after a kill, against the parent's view (built
@@ -142,6 +143,7 @@ func c06One(t *testing.T, p *Plan, planPath string, crashes []string, st *c06Sta
 		if err != nil {
 			return nil, []string{"child: " + err.Error()}
 		}
+		st.faults += cr.Faults
 		if cr.Exit != 0 {
 			return nil, []string{fmt.Sprintf("child exited with %d: %s", cr.Exit, cr.Stderr)}
 		}
@@ -281,6 +283,14 @@ func init() {
 					p.Ops = append(p.Ops, Op{K: "update", L: l, B: -1, Sz: "rel1", D: uint64(r.Range(1, 5)), P: Pick(r, "flip", "random", "empty"), PV: r.Uint64()})
 				}
 			}
+			if n%3 == 1 {
+				// storage errors short of a crash, too: some driver operations fail (SQLite busy/locked, I/O error, disk full)
+				for i := 1; i <= 7*k; i++ {
+					if r.Chance(0.1) {
+						p.Faults = append(p.Faults, Fault{At: fmt.Sprintf("mf:%d", i), Kind: drvKind(r)})
+					}
+				}
+			}
 			p.Cfg.Extra = map[string]int64{"tail_from": int64(len(p.Ops)), "torn_seed": int64(r.Uint32()), "second_seed": int64(r.Uint32())}
 			for l := range p.Cfg.Logs {
 				nb := len(p.Cfg.Logs[l].Forks) + 1
@@ -309,6 +319,7 @@ func init() {
 			finish := func() *Outcome {
 				out.Stats.Probes["child_processes"] += st.children
 				out.Stats.Fired["process_kill"] += st.killed
+				out.Stats.Fired["driver_error_short_of_a_crash"] += int(st.faults)
 				out.Stats.Fired["kill_at_driver_boundary"] += st.drvPoints
 				out.Stats.Fired["kill_at_vfs_op"] += st.vfsPoints
 				out.Stats.Fired["torn_write_kill"] += st.torn
